@@ -451,6 +451,11 @@ def _parse_tuple(self, a, st, k):
                 st2 = st2.set(t.a, v)
             else:
                 arr = self.ex.field_array(st2, t.b)
+                from .core import OWNING_FIELDS
+                if t.b in OWNING_FIELDS and st2.own is not None:
+                    # a borrowed pointer is written straight into an owning field: the field now counts on a reference
+                    # nobody gave it (-1 until the function takes one), and what it held before is the function's to release
+                    st2 = st2.with_own(own_add(own_add(st2.own, arr[t.a], 1), v, -1))
                 st2 = st2.with_mem(t.b, z3.Store(arr, t.a, v)).log(("parse-store", t.b, t.a, v))
         return st2
     out = []
@@ -704,6 +709,14 @@ def _getattr(self, a, st, k):
 
 
 Api.f_PyUnicode_Concat = _unicode_concat
+def _getattr_string(self, a, st, k):
+    """PyObject_GetAttrString(o, "name"): a new reference or NULL with an exception; runs Python code"""
+    st = self.nonnull(st, a[0], "PyObject_GetAttrString")
+    st = st.log(("getattr-string", a[0], a[1].s if isinstance(a[1], StrLit) else "?"))
+    return self.python_call(st, "PyObject_GetAttrString", k, lambda s: k(NULL, s), result_prefix="attr")
+
+
+Api.f_PyObject_GetAttrString = _getattr_string
 Api.f_PyObject_GetAttr = _getattr
 
 
